@@ -1,7 +1,16 @@
-// C16 harness: Rotation_Matrix, Spherical_Coordinates (both overloads), Cross (see checks/C16.py for the case grammar)
+// C16 harness: Rotation_Matrix (with and without the default axis), Spherical_Coordinates (both overloads), Angle, Cross
+// (see checks/C16.py for the case grammar).
+// `hist <op> ...`: every Vector argument is followed by `k step_1 .. step_k`, a call history that is applied to ONE live
+// object (constructed from the list, then copied / assigned / changed in place / asked questions / used in earlier
+// Rotation_Matrix and Spherical_Coordinates calls) before the operation receives that very object; the matrices that
+// are multiplied (rotcomp, rotapply, rotback, rotsph) get a history of their own at the end of the line.
 #include "common.hpp"
+#include <memory>
+#include <sstream>
 #include "libphysica/Linear_Algebra.hpp"
 using namespace libphysica;
+static volatile double g_sink = 0.0;	// results of the history's questions end here (so that the calls are not removed)
+static bool g_hist = false;
 static void put_mat(vh::Out& o, const Matrix& M)
 {
 	o.i(M.Rows());
@@ -16,35 +25,195 @@ static void put_vec(vh::Out& o, const Vector& v)
 	for(unsigned int i = 0; i < v.Size(); i++)
 		o.f(v[i]);
 }
-static Vector vec3(vh::Reader& r)
+static void sink(const Vector& v)
+{
+	for(unsigned int i = 0; i < v.Size(); i++)
+		g_sink = g_sink + v[i];
+}
+static void sink(const Matrix& M)
+{
+	for(unsigned int i = 0; i < M.Rows(); i++)
+		for(unsigned int j = 0; j < M.Columns(); j++)
+			g_sink = g_sink + M[i][j];
+}
+typedef std::unique_ptr<Vector> VecP;
+typedef std::unique_ptr<Matrix> MatP;
+static void bad_step(const std::string& st)
+{
+	std::fprintf(stderr, "harness C16: unknown step %s\n", st.c_str());
+	std::abort();
+}
+// the history of a Vector object
+static void vec_history(vh::Reader& r, VecP& v)
+{
+	long k = r.integer();
+	for(long s = 0; s < k; s++)
+	{
+		std::string st = r.word();
+		const Vector& cv = *v;
+		if(st == "st") { long i = r.integer(); double x = r.num(); (*v)[(unsigned int) i] = x; }
+		else if(st == "pa") { Vector w(r.list()); *v += w; }
+		else if(st == "ma") { Vector w(r.list()); *v -= w; }
+		else if(st == "sa") { *v += *v; }
+		else if(st == "ss") { *v -= *v; }
+		else if(st == "pl") { Vector w(r.list()); *v = *v + w; }
+		else if(st == "mi") { Vector w(r.list()); *v = *v - w; }
+		else if(st == "ms") { double x = r.num(); *v = *v * x; }
+		else if(st == "sm") { double x = r.num(); *v = x * *v; }
+		else if(st == "dv") { double x = r.num(); *v = *v / x; }
+		else if(st == "rs") { long n = r.integer(); v->Resize((unsigned int) n); }
+		else if(st == "as") { long n = r.integer(); double x = r.num(); v->Assign((unsigned int) n, x); }
+		else if(st == "nz") { v->Normalize(); }
+		else if(st == "nd") { *v = v->Normalized(); }
+		else if(st == "cx") { Vector w(r.list()); *v = v->Cross(w); }
+		else if(st == "df") { *v = Vector(); }
+		else if(st == "cp") { v.reset(new Vector(*v)); }
+		else if(st == "eq")
+		{
+			// assignment through objects that had another size (and a norm of their own) before
+			Vector b(v->Size() + 3, 7.0);
+			g_sink = g_sink + b.Norm();
+			b = *v;
+			Vector c(1, 3.0);
+			g_sink = g_sink + c.Norm();
+			c  = b;
+			*v = c;
+		}
+		else if(st == "se") { *v = *v; }
+		else if(st == "qn") { g_sink = g_sink + cv.Norm(); }
+		else if(st == "qN") { sink(cv.Normalized()); }
+		else if(st == "qz") { g_sink = g_sink + cv.Size(); }
+		else if(st == "qp") { std::ostringstream os; os << cv; g_sink = g_sink + os.str().size(); }
+		else if(st == "qd") { Vector w(r.list()); g_sink = g_sink + cv.Dot(w); }
+		else if(st == "qo") { Vector w(r.list()); g_sink = g_sink + cv * w; }
+		else if(st == "qO") { Vector w(r.list()); g_sink = g_sink + w * cv; }
+		else if(st == "qe") { Vector w(r.list()); g_sink = g_sink + ((cv == w) ? 1.0 : 0.0); }
+		else if(st == "qr") { long i = r.integer(); g_sink = g_sink + cv[(unsigned int) i]; }
+		else if(st == "qw") { long i = r.integer(); g_sink = g_sink + (*v)[(unsigned int) i]; }
+		else if(st == "qc") { Vector w(r.list()); sink(cv.Cross(w)); }
+		else if(st == "qa") { Vector w(r.list()); g_sink = g_sink + Angle(cv, w); }
+		else if(st == "qb") { Vector w(r.list()); g_sink = g_sink + Angle(w, cv); }
+		else if(st == "cs") { double rr = r.num(), th = r.num(), ph = r.num(); sink(Spherical_Coordinates(rr, th, ph, cv)); }
+		else if(st == "cr") { double al = r.num(); long dim = r.integer(); sink(Rotation_Matrix(al, (int) dim, cv)); }
+		else bad_step(st);
+	}
+}
+static VecP rd_vec(vh::Reader& r)
+{
+	VecP v(new Vector(r.list()));
+	if(g_hist)
+		vec_history(r, v);
+	return v;
+}
+static VecP rd_vec3(vh::Reader& r)
 {
 	double a = r.num(), b = r.num(), c = r.num();
-	return Vector({a, b, c});
+	VecP v(new Vector({a, b, c}));
+	if(g_hist)
+		vec_history(r, v);
+	return v;
+}
+// the history of a Matrix object (a rotation matrix returned by the library)
+static void mat_history(vh::Reader& r, MatP& A)
+{
+	if(!g_hist)
+		return;
+	long k = r.integer();
+	for(long s = 0; s < k; s++)
+	{
+		std::string st = r.word();
+		const Matrix& cA = *A;
+		if(st == "pa") { Matrix Z(r.table()); *A += Z; }
+		else if(st == "ma") { Matrix Z(r.table()); *A -= Z; }
+		else if(st == "pl") { Matrix Z(r.table()); *A = *A + Z; }
+		else if(st == "mi") { Matrix Z(r.table()); *A = *A - Z; }
+		else if(st == "tr") { *A = A->Transpose(); }
+		else if(st == "ms") { double x = r.num(); *A = *A * x; }
+		else if(st == "sm") { double x = r.num(); *A = x * *A; }
+		else if(st == "dv") { double x = r.num(); *A = *A / x; }
+		else if(st == "rs") { long p = r.integer(), q = r.integer(); A->Resize((int) p, (int) q); }
+		else if(st == "cp") { A.reset(new Matrix(*A)); }
+		else if(st == "eq")
+		{
+			Matrix B(A->Rows() + 1, A->Columns() + 2, 7.0);
+			g_sink = g_sink + B.Norm();
+			B = *A;
+			Matrix C(1, 1, 3.0);
+			g_sink = g_sink + C.Determinant();
+			C  = B;
+			*A = C;
+		}
+		else if(st == "se") { *A = *A; }
+		else if(st == "sw") { long i = r.integer(), j = r.integer(); double t = cA[(unsigned int) i][j]; (*A)[(unsigned int) i][j] = t; }
+		else if(st == "qd") { g_sink = g_sink + cA.Determinant(); }
+		else if(st == "qi") { sink(cA.Inverse()); }
+		else if(st == "qo") { g_sink = g_sink + (cA.Orthogonal() ? 1.0 : 0.0); }
+		else if(st == "qt") { g_sink = g_sink + cA.Trace(); }
+		else if(st == "qn") { g_sink = g_sink + cA.Norm(); }
+		else if(st == "qs") { g_sink = g_sink + (cA.Symmetric() ? 1.0 : 0.0) + (cA.Antisymmetric() ? 1.0 : 0.0) + (cA.Diagonal() ? 1.0 : 0.0) + (cA.Square() ? 1.0 : 0.0) + (cA.Invertible() ? 1.0 : 0.0); }
+		else if(st == "qT") { sink(cA.Transpose()); }
+		else if(st == "qr") { long i = r.integer(); sink(cA.Return_Row((unsigned int) i)); }
+		else if(st == "qc") { long j = r.integer(); sink(cA.Return_Column((unsigned int) j)); }
+		else if(st == "qe") { g_sink = g_sink + ((cA == cA) ? 1.0 : 0.0); }
+		else if(st == "qp") { std::ostringstream os; os << cA; g_sink = g_sink + os.str().size(); }
+		else if(st == "qm") { sink(A->Product(cA)); }
+		else if(st == "qv") { Vector w(r.list()); sink(cA.Product(w)); }
+		else if(st == "qb") { sink(cA.Sub_Matrix(0, 0)); }
+		else bad_step(st);
+	}
 }
 static void handler(vh::Reader& r, vh::Out& o)
 {
 	std::string op = r.word();
+	g_hist		   = false;
+	if(op == "hist")
+	{
+		g_hist = true;
+		op	   = r.word();
+	}
 	if(op == "rot")
 	{
 		double alpha = r.num();
 		long dim	 = r.integer();
-		Vector axis(r.list());
-		put_mat(o, Rotation_Matrix(alpha, dim, axis));
+		VecP axis	 = rd_vec(r);
+		put_mat(o, Rotation_Matrix(alpha, dim, *axis));
+	}
+	else if(op == "rotdef")
+	{
+		// the default argument: Rotation_Matrix(alpha, dim) turns about Vector({0, 0, 1})
+		double alpha = r.num();
+		long dim	 = r.integer();
+		put_mat(o, Rotation_Matrix(alpha, dim));
 	}
 	else if(op == "rotcomp")
 	{
 		double a = r.num(), b = r.num();
-		Vector axis = vec3(r);
-		Matrix Ra = Rotation_Matrix(a, 3, axis), Rb = Rotation_Matrix(b, 3, axis), Rab = Rotation_Matrix(a + b, 3, axis);
-		put_mat(o, Ra * Rb);
+		VecP axis = rd_vec3(r);
+		MatP Ra(new Matrix(Rotation_Matrix(a, 3, *axis))), Rb(new Matrix(Rotation_Matrix(b, 3, *axis)));
+		Matrix Rab = Rotation_Matrix(a + b, 3, *axis);
+		mat_history(r, Ra);
+		mat_history(r, Rb);
+		put_mat(o, *Ra * *Rb);
 		put_mat(o, Rab);
 	}
 	else if(op == "rotapply")
 	{
 		double alpha = r.num();
-		Vector axis = vec3(r), v = vec3(r);
-		Matrix R = Rotation_Matrix(alpha, 3, axis);
-		put_vec(o, R * v);
+		VecP axis = rd_vec3(r), v = rd_vec3(r);
+		MatP R(new Matrix(Rotation_Matrix(alpha, 3, *axis)));
+		mat_history(r, R);
+		put_vec(o, *R * *v);
+	}
+	else if(op == "rotback")
+	{
+		// transpose equals inverse, with the library's own products: (R v) R = R^T (R v) = v
+		double alpha = r.num();
+		VecP axis = rd_vec3(r), v = rd_vec3(r);
+		MatP R(new Matrix(Rotation_Matrix(alpha, 3, *axis)));
+		mat_history(r, R);
+		Vector w = *R * *v;
+		put_vec(o, w);
+		put_vec(o, w * *R);
 	}
 	else if(op == "sph")
 	{
@@ -54,20 +223,58 @@ static void handler(vh::Reader& r, vh::Out& o)
 	else if(op == "spha")
 	{
 		double rr = r.num(), th = r.num(), ph = r.num();
-		Vector axis(r.list());
-		put_vec(o, Spherical_Coordinates(rr, th, ph, axis));
+		VecP axis = rd_vec(r);
+		put_vec(o, Spherical_Coordinates(rr, th, ph, *axis));
 	}
 	else if(op == "sphad")
 	{
 		double rr = r.num(), th = r.num(), ph = r.num(), h = r.num();
-		Vector axis = vec3(r);
-		put_vec(o, Spherical_Coordinates(rr, th, ph, axis));
-		put_vec(o, Spherical_Coordinates(rr, th, ph + h, axis));
+		VecP axis = rd_vec3(r);
+		put_vec(o, Spherical_Coordinates(rr, th, ph, *axis));
+		put_vec(o, Spherical_Coordinates(rr, th, ph + h, *axis));
+	}
+	else if(op == "sphang")
+	{
+		// the library's own Norm() and Angle() of the result
+		double rr = r.num(), th = r.num(), ph = r.num();
+		VecP axis = rd_vec(r);
+		Vector u  = Spherical_Coordinates(rr, th, ph, *axis);
+		put_vec(o, u);
+		o.f(u.Norm());
+		o.f(Angle(u, *axis));
+		o.f(Angle(*axis, u));
+	}
+	else if(op == "sphrot")
+	{
+		// the returned vector is the axis of a rotation
+		double rr = r.num(), th = r.num(), ph = r.num(), alpha = r.num();
+		VecP axis = rd_vec3(r);
+		VecP u(new Vector(Spherical_Coordinates(rr, th, ph, *axis)));
+		if(g_hist)
+			vec_history(r, u);
+		put_vec(o, *u);
+		put_mat(o, Rotation_Matrix(alpha, 3, *u));
+	}
+	else if(op == "rotsph")
+	{
+		// turning the vector about the axis by alpha is increasing phi by alpha
+		double alpha = r.num(), rr = r.num(), th = r.num(), ph = r.num();
+		VecP axis = rd_vec3(r);
+		MatP R(new Matrix(Rotation_Matrix(alpha, 3, *axis)));
+		Vector u = Spherical_Coordinates(rr, th, ph, *axis);
+		mat_history(r, R);
+		put_vec(o, *R * u);
+		put_vec(o, Spherical_Coordinates(rr, th, ph + alpha, *axis));
+	}
+	else if(op == "angle")
+	{
+		VecP a = rd_vec(r), b = rd_vec(r);
+		o.f(Angle(*a, *b));
 	}
 	else if(op == "cross")
 	{
-		Vector a(r.list()), b(r.list());
-		put_vec(o, a.Cross(b));
+		VecP a = rd_vec(r), b = rd_vec(r);
+		put_vec(o, a->Cross(*b));
 	}
 	else
 		o.w("HARNESSERR unknown_op");
